@@ -249,6 +249,30 @@ def dead_new_site(lib, cg, b, bb, t, sigs, ap_off):
             depth = len(b.dominators().get(sb, ()))
             if best is None or depth > best[0]:
                 best = (depth, sb, ve)
+    if best is None and b.impl_trait == "functions::Function" and b.item_name == "evaluate" and sigs.get(b.impl_self):
+        # the catch-all arm of a match on an argument's kind: dead when validation admits none of the kinds that reach it
+        sig = sigs.get(b.impl_self)
+        cx0 = RT.TagCx(lib, b, sig[0], sig[1])
+        for sb, sw in br.switches():
+            ve = br.variant_edges(sb)
+            if not ve or ve["adt"] != "variable::Variable":
+                continue
+            ks = set()
+            for sx in ve["scrutinee"]:
+                isarg, k = cx0.is_arg(sx)
+                if isarg and k is not None:
+                    ks.add(k)
+            if len(ks) != 1:
+                continue
+            k = next(iter(ks))
+            if not edge_dominates(b, (sb, ve["otherwise"]), bb) and not any(edge_dominates(b, (sb, tg), bb) for tg in ve["edges"].values()):
+                continue
+            reaching = {v for v, tg in ve["edges"].items() if bb in reach_avoiding(b, tg)}
+            if bb in reach_avoiding(b, ve["otherwise"]):
+                reaching |= set(ve["all"]) - set(ve["edges"])
+            admitted = RT.tags_of_type(cx0.arg_type(k))
+            if not (admitted & reaching):
+                return True, f"dead: reached only for kinds {sorted(reaching)} of args[{k}], validation admits only {sorted(admitted)}"
     if best is not None:
         parent, pb, opt = b, best[1], set(best[2]["scrutinee"])
     else:
